@@ -151,6 +151,8 @@ def gen_case(rng, cls=None, force=None):
         if i >= 1 and rng.random() < 0.35:
             name = feats[0]["name"] + "_b" * i     # a name that CONTAINS another feature's name (q0 / q0_b)
         share = rng.choice([0, 0, 0.05, 0.15, 0.3])
+        if force.get("nan_share") is not None:
+            share = force["nan_share"]
         f = {"name": name, "kind": kind}
         if kind == "quant":
             xs, fl = gen_quant_column(rng, n, force.get("qflavour"))
